@@ -473,6 +473,39 @@ package schema
 //@   nopanic
 //@   ensures result != nil && is(result, *mgmterror.UnknownElementApplicationError) && mgmt_badelem(result.(*mgmterror.UnknownElementApplicationError)) == invalidElem
 //@   ensures result.(*mgmterror.UnknownElementApplicationError).MgmtError.Path == pathstr(backing(path), off(path), len(path))
+// Every error of a rejected path or value carries the path so far in its escaped form (pathutil.Pathstr), so that
+// a token holding '/', '%' or '+' still decodes to the same elements.
+//@ func newInvalidValueError
+//@   nopanic
+//@   ensures result != nil && is(result, *mgmterror.InvalidValueApplicationError) && result.(*mgmterror.InvalidValueApplicationError).MgmtError.Message == msg
+//@   ensures implies(len(path) > 0, result.(*mgmterror.InvalidValueApplicationError).MgmtError.Path == pathstr(backing(path), off(path), len(path)))
+//@   ensures implies(len(path) == 0, result.(*mgmterror.InvalidValueApplicationError).MgmtError.Path == "")
+//@ func newInvalidValueErrorWithAppTag
+//@   nopanic
+//@   ensures result != nil && is(result, *mgmterror.InvalidValueApplicationError) && result.(*mgmterror.InvalidValueApplicationError).MgmtError.Message == msg
+//@   ensures implies(len(path) > 0, result.(*mgmterror.InvalidValueApplicationError).MgmtError.Path == pathstr(backing(path), off(path), len(path)))
+//@   ensures implies(len(path) == 0, result.(*mgmterror.InvalidValueApplicationError).MgmtError.Path == "")
+//@ func newOperationFailedtError
+//@   nopanic
+//@   ensures result != nil && is(result, *mgmterror.OperationFailedApplicationError) && result.(*mgmterror.OperationFailedApplicationError).MgmtError.Path == pathstr(backing(path), off(path), len(path))
+//@ func NewMissingValueError
+//@   nopanic
+//@   ensures result != nil && is(result, *mgmterror.InvalidValueApplicationError)
+//@   ensures implies(len(path) > 0, result.(*mgmterror.InvalidValueApplicationError).MgmtError.Path == pathstr(backing(path), off(path), len(path)))
+//@ func NewMissingChildError
+//@   nopanic
+//@   ensures result != nil && is(result, *mgmterror.MissingElementApplicationError) && result.(*mgmterror.MissingElementApplicationError).MgmtError.Path == pathstr(backing(path), off(path), len(path))
+//@ func NewEmptyLeafValueError
+//@   nopanic
+//@   ensures result != nil && is(result, *mgmterror.UnknownElementApplicationError) && mgmt_badelem(result.(*mgmterror.UnknownElementApplicationError)) == name
+//@   ensures result.(*mgmterror.UnknownElementApplicationError).MgmtError.Path == pathstr(backing(path), off(path), len(path))
+//@ func NewMissingKeyError
+//@   nopanic
+//@   ensures result != nil && is(result, *mgmterror.OperationFailedApplicationError) && result.(*mgmterror.OperationFailedApplicationError).MgmtError.Path == pathstr(backing(path), off(path), len(path))
+//@ func NewSchemaMismatchError
+//@   nopanic
+//@   ensures result != nil && is(result, *mgmterror.UnknownElementApplicationError) && mgmt_badelem(result.(*mgmterror.UnknownElementApplicationError)) == name
+//@   ensures result.(*mgmterror.UnknownElementApplicationError).MgmtError.Path == pathstr(backing(path), off(path), len(path))
 //@ func NewIdentity
 //@   nopanic
 //@   ensures result != nil && isfresh(result) && result.Module == mod && result.Namespace == namespace && result.Val == val && result.Value == value
